@@ -80,9 +80,15 @@ func buildAccessories() []*accessory.Accessory {
 	rw := characteristic.NewString("F0000004-0000-1000-8000-0026BB765291")
 	rw.Perms = []string{characteristic.PermRead, characteristic.PermWrite}
 	rw.Value = "CANARY-VALUE"
+	// an unbounded 32-bit unsigned characteristic (values beyond 2^31 must survive in both directions)
+	u32 := characteristic.NewInt("F0000005-0000-1000-8000-0026BB765291")
+	u32.Format = characteristic.FormatUInt32
+	u32.Perms = []string{characteristic.PermRead, characteristic.PermWrite, characteristic.PermEvents}
+	u32.Value = 1
 	svc.AddCharacteristic(wo.Characteristic)
 	svc.AddCharacteristic(ro.Characteristic)
 	svc.AddCharacteristic(rw.Characteristic)
+	svc.AddCharacteristic(u32.Characteristic)
 	sw.AddService(svc)
 	return []*accessory.Accessory{br.Accessory, lb.Accessory, th.Accessory, sw.Accessory}
 }
